@@ -468,6 +468,20 @@ structure MInv (cfg : Cfg) (x : State) : Prop where
 def TabEq (am : AMod) (m : Module) : Prop :=
   am.uid = m.uid ∧ am.modId = m.modId ∧ am.pid = m.pid ∧ am.connected = m.connected
 
+/-- the manager's own table entry keeps module id 0 -/
+def ZeroP (x : State) : Prop := ∀ m ∈ x.mods, m.uid = 0 → m.modId = 0
+
+theorem zero_step {y y' : State} {p : Nat → Bool} (hz : ZeroP y) (hrk : RKP p y y') (hp : p 0 = false) (hd' : UidsDistinct y') :
+    ZeroP y' := by
+  intro m' hm' h0
+  have hf' := find_of_mem hd' hm'
+  rw [h0] at hf'
+  obtain ⟨m, hm, hk⟩ := hrk 0 m' hp hf'
+  have ht := hk.1
+  simp only [Module.tabv, Prod.mk.injEq] at ht
+  rw [ht.1]
+  exact hz m (mem_of_find hm) (find_uid hm)
+
 /-- every table entry (but the manager's own) has an abstract entry that agrees with it -/
 def TabP (x : State) (ams : List AMod) : Prop := ∀ m ∈ x.mods, m.uid ≠ 0 → ∃ am ∈ ams, TabEq am m
 
@@ -517,6 +531,7 @@ structure Sim (cfg : Cfg) (x : State) (a : A) : Prop where
   pubR : a.pubR = tallyOn [] (cliMarks cfg (sinceTick .trafficTick x.hist))
   buf : a.buf = x.buf
   tab : TabP x a.mods
+  zero : ZeroP x
 
 /-- frames of a manager type `t` the marks `e` record as handled outside a statistics send (nothing for other types) -/
 def hmgr (cfg : Cfg) (e : List Mark) (t : Int) : Nat := if mgrType cfg t then handled e t else 0
@@ -892,7 +907,9 @@ theorem read_sim {y : State} {a : A} (hI : MInv cfg y) (hS : Sim cfg y a) (rd : 
   refine ⟨e, am, by rw [hE.out]; simp [afterRead, State.emit], hE.nord, hget, halive, ?_⟩
   rw [applyDepartures_eq]
   refine ⟨hS.now.trans hA.now.symm, hS.tT.trans hA.tT.symm, hS.tR.trans hA.tR.symm, hS.tI.trans hA.tI.symm,
-    hS.seq.trans hA.seq.symm, hS.nacc.trans hE.nuid.symm, ?_, ?_, hS.fail.trans hE.fail.symm, ?_, ?_, ?_, ?_⟩
+    hS.seq.trans hA.seq.symm, hS.nacc.trans hE.nuid.symm, ?_, ?_, hS.fail.trans hE.fail.symm, ?_, ?_, ?_, ?_,
+    zero_step (y := afterRead cfg y rd) hS.zero (readOne_rkx hI.top.good.ok rd m hm) (by simpa using Ne.symm h0)
+      (minv_readOne ok hfuel hI rd).k.distinct⟩
   rotate_left 4
   · show bufAfter cfg a.buf rd = _
     rw [hA.buf, hS.buf]; rfl
@@ -955,7 +972,8 @@ theorem sim_step {y y' : State} {a : A} {e : List Ev} {mk : List Mark} {P : Int 
   refine ⟨hS.now.trans hA.now.symm, hS.tT.trans hA.tT.symm, hS.tR.trans hA.tR.symm, hS.tI.trans hA.tI.symm,
     hS.seq.trans hA.seq.symm, hS.nacc.trans hE.nuid.symm, ?_, alive_step hS.alive hE.cons, hS.fail.trans hE.fail.symm, ?_, ?_,
     hS.buf.trans hA.buf.symm,
-    fun m' hm' h0 => tab_step (p := fun _ => false) (fun m hm h0 _ => hS.tab m hm h0) hrk hE.cons hd' hao m' hm' h0 rfl⟩
+    fun m' hm' h0 => tab_step (p := fun _ => false) (fun m hm h0 _ => hS.tab m hm h0) hrk hE.cons hd' hao m' hm' h0 rfl,
+    zero_step hS.zero hrk rfl hd'⟩
   · show (depMods a.mods (closes e)).map (·.uid) = _
     rw [depMods_uids, hS.uids, hE.nuid]
   · show a.pubT = _
@@ -1007,7 +1025,7 @@ theorem accept_sim {y : State} {a : A} (hI : MInv cfg y) (hS : Sim cfg y a) :
     simp [hnew']
   have hn1 : yl.nextUid = a.nAccepted := hS1.nacc.symm
   refine ⟨hS1.now, hS1.tT, hS1.tR, hS1.tI, hS1.seq, by show a.nAccepted + 1 = yl.nextUid + 1; rw [hn1], ?_, ?_, hS1.fail, hS1.pubT, hS1.pubR,
-    hS1.buf, ?_⟩
+    hS1.buf, ?_, ?_⟩
   rotate_left 2
   · intro m hm h0
     have hm' : m ∈ yl.mods ++ [({ uid := yl.nextUid + 1 } : Module)] := hm
@@ -1018,6 +1036,11 @@ theorem accept_sim {y : State} {a : A} (hI : MInv cfg y) (hS : Sim cfg y a) :
       exact ⟨am, List.mem_append.mpr (Or.inl ham), hte⟩
     · simp at h1; subst h1
       exact ⟨{ uid := a.nAccepted + 1 }, by simp, by show a.nAccepted + 1 = yl.nextUid + 1; rw [hn1], rfl, rfl, rfl⟩
+  · intro m hm h0
+    have hm' : m ∈ yl.mods ++ [({ uid := yl.nextUid + 1 } : Module)] := hm
+    rcases List.mem_append.mp hm' with h1 | h1
+    · exact hS1.zero m h1 h0
+    · simp at h1; subst h1; rfl
   · show (depMods (a.mods ++ [({ uid := a.nAccepted + 1 } : AMod)]) (closes pre)).map (·.uid) = (List.range (yl.nextUid + 1)).map (· + 1)
     rw [hdm, List.map_append, List.range_succ, List.map_append]
     have := hS1.uids
@@ -1108,7 +1131,7 @@ theorem go_sim : ∀ (reads : List Read) {y : State} {a : A}, MInv cfg y → Sim
 
 omit ok hfuel in
 theorem sim_w {x : State} {a : A} (h : Sim cfg x a) (w : List Nat) : Sim cfg x { a with w := w } :=
-  ⟨h.now, h.tT, h.tR, h.tI, h.seq, h.nacc, h.uids, h.alive, h.fail, h.pubT, h.pubR, h.buf, h.tab⟩
+  ⟨h.now, h.tT, h.tR, h.tI, h.seq, h.nacc, h.uids, h.alive, h.fail, h.pubT, h.pubR, h.buf, h.tab, h.zero⟩
 
 omit ok hfuel in
 /-- the frames the Spec expects to be read are the frames the model reads -/
@@ -1153,7 +1176,7 @@ theorem pre_sim {x : State} {a : A} (hI : MInv cfg x) (hS : Sim cfg x a) (hx : x
   have hx1 : (envStep x r).out = [] := hx
   -- the abstract state after the clock / environment step
   have hS1 : Sim cfg (envStep x r) { a with now := a.now + r.dt, fail := (r.failSet.filter (·.1 ≤ a.nAccepted)).foldl (fun fl (p : Nat × Option FailMode) => setFail fl p.1 p.2) a.fail } := by
-    refine ⟨?_, hS.tT, hS.tR, hS.tI, hS.seq, hS.nacc, hS.uids, hS.alive, ?_, hS.pubT, hS.pubR, hS.buf, hS.tab⟩
+    refine ⟨?_, hS.tT, hS.tR, hS.tI, hS.seq, hS.nacc, hS.uids, hS.alive, ?_, hS.pubT, hS.pubR, hS.buf, hS.tab, hS.zero⟩
     · show a.now + r.dt = x.now + r.dt; rw [hS.now]
     · show _ = (r.failSet.filter (·.1 ≤ x.nextUid)).foldl (fun fl p => setFail fl p.1 p.2) x.fail
       rw [hS.nacc, hS.fail]
@@ -1204,7 +1227,7 @@ theorem pre_sim {x : State} {a : A} (hI : MInv cfg x) (hS : Sim cfg x a) (hx : x
       rw [e1]
       have := sim_w hSA wa
       exact ⟨this.now, this.tT, this.tR, this.tI, this.seq, this.nacc, this.uids, this.alive, this.fail, this.pubT, this.pubR,
-        this.buf, this.tab⟩
+        this.buf, this.tab, this.zero⟩
     obtain ⟨segs, a', ho, hn, hI', hS', hrT, hrR, hrE, hgo⟩ := go_sim ok hfuel reads hIW hSW h0'
     refine ⟨preM, segs, a', by rw [ho]; show xA.out ++ _ = _; rw [hoA], hnA, hn, hI', hS', ?_, ?_, ?_, ?_, fun T hT hA => ?_⟩
     · exact (hrbA.trans0 (rb_same (s' := { xA with wlist := wl }) rfl rfl rfl)).trans0 (readAll_rb ok hfuel hna hord reads hIW.top)
@@ -1245,7 +1268,7 @@ theorem tail_sim {x2 : State} {a' : A} (hidle : x2.inTraffic = false) (hS : Sim 
     have g4 : a7.tInfo = x2.tInfo := by subst ha7; exact hS.tI
     have g5 : a7.seq = x2.trafficSeq := by subst ha7; exact hS.seq
     refine ⟨by rw [f1, g1, hnow], by rw [f8, g1, g2, htT], by rw [f9, g1, g3, htR], by rw [f11, g1, g4, htI],
-      by rw [f10, g1, g3, g5, hseq], ?_, ?_, ?_, ?_, ?_, ?_, ?_, ?_⟩
+      by rw [f10, g1, g3, g5, hseq], ?_, ?_, ?_, ?_, ?_, ?_, ?_, ?_, zero_step hS.zero (ticks_rk cfg (fun _ => false) x2) rfl hd3⟩
     rotate_left 6
     · rw [f5, hbuf]; subst ha7; exact hS.buf
     · rw [f2]; subst ha7
@@ -1301,7 +1324,7 @@ theorem tail_sim {x2 : State} {a' : A} (hidle : x2.inTraffic = false) (hS : Sim 
 omit ok hfuel in
 theorem sim_of_noErr {x : State} {a b : A} (h : b.noErr = a.noErr) (hs : Sim cfg x a) : Sim cfg x b := by
   rw [eq_of_noErr h]
-  exact ⟨hs.now, hs.tT, hs.tR, hs.tI, hs.seq, hs.nacc, hs.uids, hs.alive, hs.fail, hs.pubT, hs.pubR, hs.buf, hs.tab⟩
+  exact ⟨hs.now, hs.tT, hs.tR, hs.tI, hs.seq, hs.nacc, hs.uids, hs.alive, hs.fail, hs.pubT, hs.pubR, hs.buf, hs.tab, hs.zero⟩
 
 omit ok hfuel in
 theorem recvOK_of_noErr {x : State} {a b : A} (h : b.noErr = a.noErr) (hs : RecvOK cfg x a) : RecvOK cfg x b := by
@@ -1346,6 +1369,8 @@ structure PreTail (cfg : Cfg) (x : State) (a : A) (r : Round) (x2 : State) (T : 
   pre18 : (roundPre cfg a r (stepR cfg x r).out).e18 = a.e18
   last : lastEvs (stepR cfg x r).out = lastIO ++ T
   io : ∃ pfx, x2.out = pfx ++ lastIO
+  quietT : dataSends isTimingB x2.out = []
+  quietR : dataSends isTrafficB x2.out = []
 
 theorem round_pre {x : State} {a : A} (h : RInv cfg x a) (hna : MgrNotAll cfg) (hord : OrderGood cfg) (r : Round)
     (hr : RoundOK r) :
@@ -1357,7 +1382,7 @@ theorem round_pre {x : State} {a : A} (h : RInv cfg x a) (hna : MgrNotAll cfg) (
   have hI0 : MInv cfg ({ x with out := [] } : State) := minv_same ok hfuel h.inv rfl rfl rfl rfl rfl rfl rfl rfl
   have hS0 : Sim cfg ({ x with out := [] } : State) a :=
     ⟨h.sim.now, h.sim.tT, h.sim.tR, h.sim.tI, h.sim.seq, h.sim.nacc, h.sim.uids, h.sim.alive, h.sim.fail, h.sim.pubT, h.sim.pubR,
-      h.sim.buf, h.sim.tab⟩
+      h.sim.buf, h.sim.tab, h.sim.zero⟩
   obtain ⟨preM, segs, a', ho, hnp, hns, hI2, hS2, hrb, heT, heR, heE, hgo⟩ := pre_sim ok hfuel hI0 hS0 rfl hna hord r hr
   generalize hx2 : ioStep cfg (envStep ({ x with out := [] } : State) r) r.accept r.writable
     (r.reads.filter (fun rd => ((envStep ({ x with out := [] } : State) r).find rd.uid).isSome)) = x2 at ho hI2 hS2 hrb
@@ -1395,7 +1420,7 @@ theorem round_pre {x : State} {a : A} (h : RInv cfg x a) (hna : MgrNotAll cfg) (
     · have hne : segs.isEmpty = false := by cases segs with | nil => exact absurd rfl hse | cons _ _ => rfl
       simp only [hne, Bool.false_eq_true, if_false, hse, List.append_nil, rT, rR]
       rw [noteAll_eq, applyDepartures_eq]
-  refine ⟨x2, T, a', rT, rR, lastIO, ⟨hstep, hE, hI2, ?_, ?_, ?_, ?_⟩, hS2, ?_, ?_⟩
+  refine ⟨x2, T, a', rT, rR, lastIO, ⟨hstep, hE, hI2, ?_, ?_, ?_, ?_, ?_, ?_⟩, hS2, ?_, ?_⟩
   · rw [(q18_roundPre cfg a r _).1, hcore]
   · rw [(q18_roundPre cfg a r _).2, hcore]
     show a'.errs.filter _ = a.errs.filter _
@@ -1419,6 +1444,16 @@ theorem round_pre {x : State} {a : A} (h : RInv cfg x a) (hna : MgrNotAll cfg) (
         · simp at hgl
         · simp at hgl; subst hgl; exact ⟨l', by simp⟩
       exact ⟨preM ++ flatSegs l' ++ [.rd sg.1], by simp [lastIO, hgl, flatSegs]⟩
+  · rw [← hx2]
+    have := dataSends_of_QE (io_QI cfg (tag_timing cfg) ctlIO_timing rfl (fun _ => rfl)
+      (envStep ({ x with out := [] } : State) r) r.accept r.writable
+      (r.reads.filter (fun rd => ((envStep ({ x with out := [] } : State) r).find rd.uid).isSome)))
+    rw [this]; rfl
+  · rw [← hx2]
+    have := dataSends_of_QE (io_QI cfg (tag_traffic cfg) ctlIO_traffic rfl (fun _ => rfl)
+      (envStep ({ x with out := [] } : State) r) r.accept r.writable
+      (r.reads.filter (fun rd => ((envStep ({ x with out := [] } : State) r).find rd.uid).isSome)))
+    rw [this]; rfl
   all_goals
     obtain ⟨ext, mk, hrbe, hbd⟩ := hrb
     have hext : ext = preM ++ flatSegs segs := by
